@@ -228,6 +228,7 @@ func (s *Sim) yield(site string, force bool) {
 	}
 	if s.holder == g {
 		s.stats.Yields++
+		g.site = site
 		if !force {
 			s.gap -= s.weight(site)
 			if s.gap > 0 {
@@ -243,6 +244,21 @@ func (s *Sim) yield(site string, force bool) {
 	g.site = site
 	s.mu.Unlock()
 	<-g.resume
+}
+
+// Blocking records where the calling goroutine is about to block (shims call
+// it right before waiting on a channel) so that a hang can be explained.
+func Blocking(site string) {
+	s := cur.Load()
+	if s == nil {
+		return
+	}
+	id := goid()
+	s.mu.Lock()
+	if g := s.gs[id]; g != nil {
+		g.site = site
+	}
+	s.mu.Unlock()
 }
 
 // Ticket names a goroutine before it starts.
